@@ -265,7 +265,7 @@ func buildFile(s *Step) ([]byte, bool) {
 }
 
 type outcome struct {
-	imports, importsOK, mixed, repeated, respelt, rejectedMeta, malformed, firstImport, afterRestart, probes int
+	imports, importsOK, malformedSubmitted, mixed, repeated, respelt, rejectedMeta, malformed, firstImport, afterRestart, probes int
 	trace                                                                                                    []string
 }
 
@@ -368,6 +368,9 @@ func run(c *Case) (*outcome, *vkit.Violation, error) {
 				return o, nil, err
 			}
 			o.imports++
+			if !wellFormed {
+				o.malformedSubmitted++
+			}
 			o.trace = append(o.trace, fmt.Sprintf("import meta=%s wellformed=%v exit=%d", s.Meta, wellFormed, code))
 			if err := open(); err != nil {
 				return o, nil, fmt.Errorf("store does not open after import: %w", err)
@@ -534,6 +537,7 @@ func TestC10(t *testing.T) {
 		vkit.S.ClassN("file-names-a-key-twice-in-different-spellings", o.respelt)
 		vkit.S.ClassN("metadata-rejections", o.rejectedMeta)
 		vkit.S.ClassN("malformed-file-exit-0", o.malformed)
+		vkit.S.ClassN("malformed-file-submitted", o.malformedSubmitted)
 		vkit.S.ClassN("first-import-into-empty-db", o.firstImport)
 		vkit.S.ClassN("import-after-restart", o.afterRestart)
 		vkit.S.ClassN("probes", o.probes)
